@@ -4,6 +4,7 @@ import SJ.Proofs.SerUtf8
 import SJ.Proofs.Write
 import SJ.Proofs.WriteBudget
 import SJ.Proofs.WriteTrace
+import SJ.Gen.Write
 /-!
 # C13 — I/O failures surface as Io errors and never corrupt results
 -/
@@ -467,4 +468,23 @@ example : ((toWriterT 9 extI .compact badKey (Writer.budget 3 { kind := .other 7
     (toWriterT 9 extI .compact badKey Writer.vec).1.accepted == [0x7b, 0x22, 0x61, 0x22, 0x3a, 0x31, 0x2c] &&
     (toWriterT 9 extI .compact badKey Writer.vec).2 == .ser .keyMustBeAString) = true := by decide +kernel
 
+end SJ.Props.C13
+
+
+namespace SJ.Props.C13
+open SJ.Gen
+/-- **C13 (writer: no write error is swallowed — re-derived from `src/ser.rs` on every run).** `Model.Write.Writer.runBufs`
+    *defines* the serializer as stopping at the first failing `write_all`. What ties that to the source, besides the
+    correspondence op `wfault`: `tools/extract.py` (`gen_write`) scans every expression of `src/ser.rs` through which bytes
+    can reach the writer — `writer.write_all(..)`, every `Formatter` method call, `format_escaped_str(_contents)`, `indent`
+    (147 in the pinned tree) — and classifies how its `io::Result` is used. Each one is under `tri!(..)` (which is
+    `match $e { Ok(val) => val, Err(err) => return Err(err) }`: `triReturnsErr`), the tail expression of its block or
+    match arm, after `return`, followed by `?`, or scrutinised by the `match` of `collect_str`'s adapter that stores the
+    error; none is discarded (`let _ = ..;`, a bare statement, `.ok()`, a `let` that is combined later …), and no method
+    other than `write_all` (`write`, `flush`, `write_fmt`) is ever called on the writer. An edit of `ser.rs` that drops a
+    `tri!` or swallows a `Result` changes a generated constant and breaks this theorem. -/
+theorem c13_every_write_checked :
+    serUncheckedWriterCalls = [] ∧ serWriterOtherMethodCalls = [] ∧ triReturnsErr = true ∧
+    serWriterCalls = serWriterCallsTri + serWriterCallsTail + serWriterCallsReturn + serWriterCallsQuestion +
+      serWriterCallsMatched ∧ 100 < serWriterCalls := by decide
 end SJ.Props.C13
